@@ -3,6 +3,7 @@ from .. import facts
 from ..common import Report, finish
 from ..rules.c12 import C12
 from ..rules import byteorder
+from .. import witness
 
 RULE = ("every creation (aggregate in fn bodies and const initialisers), in-place mutation, reinterpreting "
         "cast, ctor-as-fn use and conjuring call of NonZero/Odd is (derived | constant | core-nonzero | "
@@ -19,6 +20,8 @@ def run(tier, t0):
         nb += len(f.body_list)
         C12(f, rep, cfg).run()
         byteorder.run(f, rep, cfg, prop="C12", scope="wrappers")
+    witness.run(rep)
+    rep.floor("compile_fail_witnesses", 8)
     # a stale reviewed entry counts only if stale in every configuration
     stale = {}
     for s in rep.stale:
